@@ -41,6 +41,13 @@ Fixpoint stale_ok_along (h : hstate) (evs : list hevent) : bool :=
   | e :: r => stale_ok (h_step h e) && stale_ok_along (h_step h e) r
   end.
 
+(* the same over histories with a second connection of the neighbour (Model/Gr.v cstate) *)
+Fixpoint stale_ok_along_c (c : cstate) (evs : list cevent) : bool :=
+  match evs with
+  | [] => true
+  | e :: r => stale_ok (c_h (c_step c e)) && stale_ok_along_c (c_step c e) r
+  end.
+
 (* ------------------------------------------------------------ helpers
    (findings C10-1 .. C10-7 are repaired; no input class is excluded) *)
 
